@@ -172,6 +172,45 @@ async fn run_one(sc: &Value) -> Value {
             out["encReqAuth"] = json!(o.enc_req_auth.unwrap_or(true));
             out["reached"] = json!(o.reached);
         }
+        "C14reissue" => {
+            // a cookie ISSUED by one instance (configured with a long expiry) presented to another instance with the same secret and a SHORT
+            // expiry, after it has become older than that: the expiry configured where the cookie is presented governs
+            let mut t = Tcp::connect(addr, None).await.unwrap();
+            let o = login(&mut t, 2, "Claimed", 5, None, "success", Duration::from_millis(2000)).await;
+            let mut cookie: Option<Vec<u8>> = None;
+            if o.login_success.is_some() {
+                let c = configuration(&mut t, true, true, Duration::from_millis(2500)).await;
+                for ck in c["cookies"].as_array().cloned().unwrap_or_default() {
+                    if ck["key"] == "passage:authentication" {
+                        cookie = Some(hx_core::refcodec::unhex(ck["payload"].as_str().unwrap_or("")));
+                    }
+                }
+            }
+            out["issued"] = json!(cookie.is_some());
+            let wait_s = sc["waitS"].as_u64().unwrap_or(3);
+            tokio::time::sleep(Duration::from_secs(wait_s)).await;
+            let mut sc2 = sc.clone();
+            sc2["expiry"] = sc["expiry2"].clone();
+            match start_app(&sc2).await {
+                Some((port2, app2)) => {
+                    let addr2: SocketAddr = format!("127.0.0.1:{port2}").parse().unwrap();
+                    let mut t2 = Tcp::connect(addr2, None).await.unwrap();
+                    let o2 = login(&mut t2, 3, "Claimed", 5, cookie, "encreq", Duration::from_millis(1500)).await;
+                    out["askedAuthCookie"] = json!(o2.asked_auth_cookie);
+                    out["encReqAuth"] = json!(o2.enc_req_auth.unwrap_or(true));
+                    app2.abort();
+                }
+                None => {
+                    out["harnessError"] = json!("second application did not start");
+                }
+            }
+            // in the vocabulary of C14_CookieAcceptance: age at presentation, expiry that governs
+            out["age"] = json!(wait_s);
+            out["stallS"] = json!(0);
+            out["expiry"] = sc["expiry2"].clone();
+            out["secretMatches"] = json!(true);
+            out["ipMatches"] = json!(true);
+        }
         "C14deadline" => {
             let mut t = Tcp::connect(addr, None).await.unwrap();
             let started = Instant::now();
